@@ -13,6 +13,7 @@ Lean spec), PEC, dtype, in-place update, zero source, error figures.
 """
 import warnings
 
+import os
 import numpy as np
 
 from harness import common, fitasm
@@ -28,6 +29,7 @@ THEOREMS = [
     'SolveM.krylov_success_iff_info_zero',
     'SolveM.krylov_reports_returned_field',
     'SolveM.krylov_abort_is_failure',
+    'SolveM.krylov_breakdown_is_failure',
     'SolveM.terminate_converged_iff',
     # clause PEC over the whole-cycle model (Props/CyclePEC.lean)
     'Emg.mgRun_frame',
@@ -168,6 +170,8 @@ def make_problem(rng, cfgp):
             sf.fx[0, 1, 1] = 1e-6 if shp[1] > 1 and shp[2] > 1 else 0
         # weak but non-zero sources (e.g. adjoint sources of tiny residuals)
         sf.field[:] = sf.field*cfgp.get("src_scale", 1.0)
+        if cfgp.get('src_norm') and np.any(sf.field):
+            sf.field[:] = sf.field*(cfgp['src_norm']/np.linalg.norm(sf.field))
     return grid, model, sf
 
 
@@ -465,6 +469,20 @@ def run(ctx):
              mode='fresh', zero_source=False, cycle='F', ssl='bicgstab',
              maxit=0, tol=1e-6),
     ]
+    # Krylov break-down window: SciPy's bicgstab / cgs give up (info = -10)
+    # when |<r0, r>| < eps^2, i.e. for |s| ~ sqrt(5e-33 / tol) just when the
+    # residual comes within reach of the tolerance - and a preconditioner
+    # run may already have noted "CONVERGED" (regression of f9ccc85)
+    rngw = ctx.nprng('window')
+    for k in range(240 if ctx.thorough else 40):
+        tolw = float(10**rngw.uniform(-4, -1.5))
+        corpus.append(dict(
+            gen_cfg(rngw, k), mode='fresh', zero_source=False,
+            shape=[(4, 4, 8), (8, 4, 4), (8, 8, 8), (4, 6, 4)][k % 4],
+            ssl=['cgs', 'bicgstab'][k % 2], cycle=['W', 'V', 'F'][k % 3],
+            tol=tolw, maxit=60, src_scale=1.0, clevel=-1,
+            src_norm=float(np.sqrt(5e-33/tolw)*10**rngw.uniform(-0.7, 0.7))))
+    suite_breakdown(ctx)
     pending = []
     hist = {}
     for k in range(n + len(corpus)):
@@ -506,7 +524,54 @@ def run(ctx):
             found_input=False)
 
 
+def suite_breakdown(ctx):
+    """Stored inputs on which a Krylov break-down follows a preconditioner
+    run that noted CONVERGED (defect f9ccc85): success must certify the
+    field, whatever the solver's bookkeeping says."""
+    import json
+    import emg3d
+    from harness import fitasm
+    bad = []
+    here = os.path.dirname(os.path.abspath(__file__))
+    for name in ['c01_breakdown_1.json', 'c01_breakdown_2.json']:
+        c = json.load(open(os.path.join(here, name)))
+        grid = emg3d.TensorMesh([np.array(c['hx']), np.array(c['hy']),
+                                 np.array(c['hz'])], (0, 0, 0))
+        model = emg3d.Model(grid, property_x=np.array(c['property_x']).reshape(
+            grid.shape_cells, order='F'))
+        with warnings.catch_warnings():
+            warnings.simplefilter('ignore')
+            sf = emg3d.get_source_field(
+                grid, emg3d.TxElectricDipole(tuple(c['src'])), c['frequency'])
+            sf.field[:] = sf.field*c['scale']
+            ef, info = emg3d.solve(
+                model, sf, sslsolver=c['sslsolver'], cycle=c['cycle'],
+                tol=c['tol'], maxit=c['maxit'], verb=-1, return_info=True)
+        rin, _ = fitasm.residual_norm(model, sf, ef)
+        ref = float(np.linalg.norm(sf.field))
+        ctx.count(key=('breakdown', name, info['exit']))
+        if info['exit'] == 0 and not rin < c['tol']*ref*(1 + 1e-6):
+            bad.append((name, rin/ref, c['tol']))
+            ctx.violation(
+                'success-without-convergence',
+                f'{c["sslsolver"]} with {c["cycle"]}-cycle preconditioner, '
+                f'grid {grid.shape_cells}, |s| = {ref:.3e}, tol = '
+                f'{c["tol"]:.3e}: exit 0 "{info["exit_message"]}" but the '
+                f'residual of the returned field (independent assembly) is '
+                f'{rin/ref:.3e} x |s|',
+                {'stored_input': name})
+    ctx.oblige('monitor: stored break-down inputs (harness/c01_breakdown_*.'
+               'json): reported success implies residual < tol |s|',
+               'monitor', not bad, str(bad))
+    return bad
+
+
 def replay(ctx, rp):
+    if rp['replay'].get('stored_input'):
+        suite_breakdown(ctx)
+        for v in ctx.violations:
+            print('replay:', v['sig'], v['what'])
+        return 1 if ctx.violations else 0
     c = rp['replay'].get('config')
     if not c:
         print('replay: no input recorded')
